@@ -36,6 +36,7 @@ var extraPkgs = []string{
 	"mods.irisnet.org/modules/mt/types",
 	"mods.irisnet.org/modules/mt/keeper",
 	"mods.irisnet.org/modules/nft/keeper",
+	"github.com/cometbft/cometbft/light",
 }
 
 func Load(repo string, overlay map[string][]byte, tags string) (*World, error) {
